@@ -63,8 +63,12 @@ pub fn run_cnf_util(case: &CnfUtilCase, st: &mut Stats) -> CaseResult {
         );
     }
     // is_sat_partial
-    let pm_vec: Vec<Option<bool>> = (0..n).map(|i| case.partial.get(i).copied().flatten()).collect();
+    // the model may speak about more variables than the formula has (a formula is often one part of a larger problem)
+    let plen = (n + (case.cond.0 as usize >> 5) % 4).min(case.partial.len()).max(n);
+    let pm_vec: Vec<Option<bool>> = (0..plen).map(|i| case.partial.get(i).copied().flatten()).collect();
     let pm = PartialModel::from_assignments(&pm_vec);
+    st.flag("cnf.partial_model_assigns_variables_beyond_the_formula", pm_vec[n..].iter().any(|x| x.is_some()));
+    st.flag("cnf.partial_model_assigns_exactly_num_vars_variables_some_beyond_the_formula", pm_vec[n..].iter().any(|x| x.is_some()) && pm_vec.iter().filter(|x| x.is_some()).count() == n);
     let want_sat = case
         .cnf
         .clauses
@@ -271,7 +275,9 @@ pub fn run_wide_cnf(case: &WideCnfCase, st: &mut Stats) -> CaseResult {
         ensure!(cnf.eval(&asg) == sat(a), "C15/cnf-eval", "Cnf::eval = {} on an assignment of {} variables where the clauses are {}", cnf.eval(&asg), nv, sat(a));
     }
     // is_sat_partial and condition
-    let m: Vec<Option<bool>> = (0..nv).map(|i| case.partial.get(i).copied().flatten()).collect();
+    // up to three further variables beyond the formula's are assigned as well
+    let extra = (case.cond.0 as usize >> 5) % 4;
+    let m: Vec<Option<bool>> = (0..nv + extra).map(|i| if i < nv { case.partial.get(i).copied().flatten() } else { Some((case.cond.0 >> (i - nv)) & 1 == 1) }).collect();
     let pm = PartialModel::from_assignments(&m);
     let want_sat = clauses.iter().all(|c| c.iter().any(|(v, p)| m[*v] == Some(*p)));
     ensure!(cnf.is_sat_partial(&pm) == want_sat, "C15/cnf-is-sat-partial", "is_sat_partial({:?}) = {} but 'every clause has a literal made true' is {}", m, cnf.is_sat_partial(&pm), want_sat);
